@@ -39,6 +39,17 @@ def check(repo: Repo, rep, tier):
     kwarg_position(repo, rep)
     node_none_guard(repo, rep)
     node_kind_tested(repo, rep)
+    from .C03 import source_bom
+
+    source_bom(repo, rep)
+    from .C13 import files_registered, persist_remove
+
+    # what is registered as a file with snapshots is parsed at session end; the unused externals are computed from the rewritten files
+    files_registered(repo, rep)
+    persist_remove(repo, rep)
+    from .C10 import star_no_insert
+
+    star_no_insert(repo, rep)
 
 
 SESSION_END = ("_get_changes", "_new_code")
